@@ -1,5 +1,5 @@
 """C08 (claimed slice) — the macro's validation layer, decided for all configurations it ranges over (Engine M)."""
-import os
+import json, os, re
 from vlib.driver import Plan, H, VERIF
 
 HARNESSES = [
@@ -19,8 +19,117 @@ HARNESSES = [
 ]
 
 
+# ---- spelling layer (token stream -> bound value), observed not solved --------------------------------------------------------------
+# Engine M starts from parsed guards, so "the contradiction check sees the value the literal denotes" is outside its encoding. One
+# `cargo check` pass (the mechanism of C02's accept probe) observes rustc's verdict on declarations whose literal bounds contradict
+# each other in every literal spelling the parser knows, next to consistent controls in the same spellings.
+def spelling_cases():
+    C = []
+    def add(sid, ty, attr, expect):
+        C.append(dict(id=sid, ty=ty, attr=attr, ref="true", can_ok=True, can_err=True, note="", expect=expect))
+    for (sid, ty, lo, hi) in [("i_plain", "i32", "10", "5"), ("i_us", "i32", "1_0", "5"), ("i_us_hi", "i32", "1_000", "9_9"), ("i_hex", "i32", "0x10", "0xF"),
+                              ("i_bin_oct", "i32", "0b1000", "0o7"), ("i_suffix", "i32", "10i32", "5i32"), ("i_neg", "i32", "-5", "-10"), ("i_neg_sp", "i32", "- 5", "-10"),
+                              ("i_u8", "u8", "200", "100"), ("i_i64", "i64", "9_000_000_000", "8_000_000_000"),
+                              ("f_plain", "f64", "2.5", "1.5"), ("f_us", "f64", "2_000.5", "1_000.5"), ("f_us_frac", "f64", "1_0.0", "5.0"), ("f_exp", "f64", "1e3", "1e2"),
+                              ("f_exp_cap", "f64", "2.5E2", "1.0e1"), ("f_trailing_dot", "f64", "5.", "4."), ("f_suffix", "f64", "10f64", "5f64"), ("f_int_lit", "f64", "10", "5"),
+                              ("f_neg", "f64", "-1.5", "-2.5"), ("f_f32", "f32", "1e-2", "1e-3")]:
+        # radix-prefixed and type-suffixed literals are handled by the macro like expressions (it does not evaluate them): the
+        # property's second clause applies - refused at compile time OR the generated unit test fails
+        exp = "reject_or_test" if sid in ("i_hex", "i_bin_oct", "i_suffix", "f_suffix") else "reject"
+        add("contra_gt_lt_" + sid, ty, "validate(greater = %s, less = %s)" % (lo, hi), exp)
+        add("contra_ge_le_" + sid, ty, "validate(greater_or_equal = %s, less_or_equal = %s)" % (lo, hi), exp)
+        add("ok_ge_le_" + sid, ty, "validate(greater_or_equal = %s, less_or_equal = %s)" % (hi, lo), "accept")
+    for (sid, mn, mx) in [("plain", "10", "5"), ("us", "1_0", "5"), ("hex", "0x10", "0xF"), ("suffix", "10usize", "5usize")]:
+        add("contra_len_" + sid, "String", "validate(len_char_min = %s, len_char_max = %s)" % (mn, mx), "reject_or_test" if sid in ("hex", "suffix") else "reject")
+        add("ok_len_" + sid, "String", "validate(len_char_min = %s, len_char_max = %s)" % (mx, mn), "accept")
+    # bounds / defaults the macro cannot evaluate: the generated unit tests must do the refusing
+    add("expr_contra_int", "i32", "validate(greater = K + 10, less = K)", "reject_or_test")
+    add("expr_contra_float", "f64", "validate(greater_or_equal = KF * 2.0, less_or_equal = KF)", "reject_or_test")
+    add("expr_contra_len", "String", "validate(len_char_min = UK + 3, len_char_max = UK)", "reject_or_test")
+    add("expr_ok_int", "i32", "validate(greater = K - 10, less = K)", "accept")
+    add("default_invalid_lit", "i32", "validate(greater = 0), default = -1, derive(Default)", "reject_or_test")
+    add("default_invalid_expr", "i32", "validate(less = K), default = K + 1, derive(Default)", "reject_or_test")
+    add("default_invalid_float", "f64", "validate(finite, less = KF), default = KF, derive(Default)", "reject_or_test")
+    add("default_invalid_string", "String", 'sanitize(trim), validate(not_empty), default = "  ", derive(Default)', "reject_or_test")
+    add("default_invalid_custom", "i32", "validate(with = vfn, error = MyErr), default = 100, derive(Default)", "reject_or_test")
+    add("default_invalid_pred", "i32", "validate(predicate = |v| *v != K), default = K, derive(Default)", "reject_or_test")
+    add("default_valid_custom", "i32", "validate(with = vfn, error = MyErr), default = 1, derive(Default)", "accept")
+    add("default_valid_lit", "i32", "validate(greater = 0), default = 1, derive(Default)", "accept")
+    add("default_missing", "i32", "validate(greater = 0), derive(Default)", "reject")
+    # regex literals are compiled at expansion time whatever else is declared
+    for (sid, extra) in [("alone", ""), ("with_min", ", len_char_min = 1"), ("with_max", ", len_char_max = 9"), ("with_both", ", len_char_min = 1, len_char_max = 9"), ("after_ne", ", not_empty")]:
+        add("bad_regex_" + sid, "String", 'validate(regex = "^[a-z+$"%s)' % extra, "reject")
+        add("ok_regex_" + sid, "String", 'validate(regex = "^[a-z]+$"%s)' % extra, "accept")
+    add("dup_sanitizer", "String", "sanitize(trim, trim)", "reject")
+    add("lower_upper", "String", "sanitize(lowercase, uppercase)", "reject")
+    add("eq_without_finite", "f64", "validate(greater_or_equal = 0.0, less_or_equal = 1.0), derive(PartialEq, Eq)", "reject")
+    add("eq_with_finite", "f64", "validate(finite, greater_or_equal = 0.0, less_or_equal = 1.0), derive(PartialEq, Eq, PartialOrd, Ord)", "accept")
+    return C
+
+
+def spelling_probe_step(ctx):
+    from props.c02 import probe_accepts
+    cases = spelling_cases()
+    alive, rejected, err = probe_accepts(ctx, cases, nutype_features='"regex"', extra_deps='regex = "1"\n')
+    if err:
+        return [("inconclusive", "spelling-probe", {"what": err})]
+    alive_ids = {c["id"] for c in alive}
+    # second pass: the unit tests the macro generated into the probe crate (accepted declarations only)
+    from props.c02 import module_src, PRELUDE
+    from vlib.driver import sh
+    pdir = os.path.join(ctx["wdir"], "accept_probe")
+    open(os.path.join(pdir, "src", "lib.rs"), "w").write("#![allow(dead_code, unused)]\n" + PRELUDE + "\n" + "\n".join(module_src(c, False) for c in alive))
+    rc, out = sh(["cargo", "test", "--offline", "--lib", "--no-fail-fast", "--target-dir", os.path.join(ctx["wdir"], "target-probe")], cwd=pdir, timeout=1800,
+                 log=os.path.join(ctx["wdir"], "accept_probe.log"))
+    tests = {}
+    for mm in re.finditer(r"^test sp_(\w+?)::(\S+) \.\.\. (ok|FAILED)", out, re.M):
+        tests.setdefault(mm.group(1), []).append((mm.group(2), mm.group(3)))
+    if "test result:" not in out:
+        return [("inconclusive", "spelling-probe", {"what": "the generated unit tests of the probe crate could not be run: " + out[-600:]})]
+    res = []
+    bad = []
+    for c in cases:   # fold the generated-test outcome into the verdict
+        if c["id"] in alive_ids:
+            failed = [t for (t, o) in tests.get(c["id"], []) if o == "FAILED"]
+            c["generated_tests"] = tests.get(c["id"], [])
+            if c["expect"] == "reject_or_test":
+                c["expect_eff"] = "accept+failing-generated-test"
+                c["got_eff"] = "accept+failing-generated-test" if failed else "accept, generated tests pass (%d run)" % len(tests.get(c["id"], []))
+            elif c["expect"] == "accept" and failed:
+                c["expect_eff"], c["got_eff"] = "accept", "accept but generated test fails: " + failed[0]
+    rdir = os.path.join(ctx["wdir"], "replay")
+    os.makedirs(rdir, exist_ok=True)
+    for c in cases:
+        got = "accept" if c["id"] in alive_ids else "reject"
+        exp = c["expect"]
+        if exp == "reject_or_test":
+            if got == "reject":
+                continue
+            got, exp = c["got_eff"], c["expect_eff"]
+        elif "got_eff" in c:
+            got, exp = c["got_eff"], c["expect_eff"]
+        if got != exp:
+            rp = os.path.join(rdir, "spelling_%s.json" % c["id"])
+            what = "#[nutype(%s)] struct N(%s); observed: %s; the reference says: %s%s" % (
+                c["attr"], c["ty"], got, exp, "" if got != "reject" else " (rustc: " + rejected.get(c["id"], "") + ")")
+            json.dump({"property_id": "C08", "kind": "spelling-probe", "declaration": "#[nutype(%s)] pub struct N(%s);" % (c["attr"], c["ty"]), "expected": exp, "observed": got, "generated_tests": c.get("generated_tests"),
+                       "rustc": rejected.get(c["id"]), "how_to_replay": "put the declaration into a crate depending on /repo/nutype (features regex; regex = \"1\") and run cargo check --offline, then cargo test --offline --lib"},
+                      open(rp, "w"), indent=1)
+            res.append(("violation", "spelling:" + c["id"], {"replay_path": rp, "what": what}))
+            bad.append(c["id"])
+    ctx["plan"].extra_evidence["spelling_probe"] = {"declarations": len(cases), "expected_reject": sum(1 for c in cases if c["expect"] == "reject"), "expected_reject_or_failing_generated_test": sum(1 for c in cases if c["expect"] == "reject_or_test"),
+                                                    "generated_tests_run": sum(len(v) for v in tests.values()),
+                                                    "expected_accept": sum(1 for c in cases if c["expect"] == "accept"), "mismatches": bad,
+                                                    "note": "rustc's verdict observed with one cargo check pass, then the generated unit tests run once with cargo test (enumerated, not solved)"}
+    if not bad:
+        res.append(("ok", "spelling-probe", {"what": "%d contradictory / ill-formed declarations refused at compile time, %d refused or caught by their generated unit test, %d consistent controls accepted with passing generated tests" % (
+            sum(1 for c in cases if c["expect"] == "reject"), sum(1 for c in cases if c["expect"] == "reject_or_test"), sum(1 for c in cases if c["expect"] == "accept"))}))
+    return res
+
+
 def generate(tier, seed):
     plan = Plan("C08", engine="macro_core")
+    plan.pre_steps = [spelling_probe_step]
     plan.source = "// C08 harnesses live in c08_harness.rs (hand-written); this file only pulls them in\n#[path = \"c08_harness.rs\"]\npub mod c08_harness;\n"
     for hn, what in HARNESSES:
         plan.add(H(hn, "main", {"configuration space": what}))
@@ -28,7 +137,8 @@ def generate(tier, seed):
     plan.kani_flags = ["-Z", "stubbing"]
     plan.timeout_s = 900 if tier == "quick" else 3600
     plan.bounds = {"configurations": "symbolic trait selector (all 22), symbolic has_validation / has_finite, symbolic bound kinds and literal values (i32, non-NaN f64, usize); lists of <= 3 items (unwind 4-5)",
-                   "not covered": "everything decided in the parse layer on token streams (foreign attributes, unknown names, with/error pairing, feature gates, regex literals, name clashes) and the generated #[test]s"}
+                   "spelling layer": "observed, not solved: one cargo check pass over contradictory/ill-formed declarations and consistent controls in every literal spelling of a finite catalogue (rustc's verdict)",
+                   "not covered": "the rest of the parse layer on token streams (foreign attributes, unknown names, with/error pairing - see C02's refused layouts -, feature gates, name clashes) and the generated #[test]s"}
     plan.assumptions = ["-Z stubbing: syn::Error::new is replaced by a function that asserts the reference expects rejection and ends the path (rejection is observed as 'an error is being constructed'); alloc::fmt::format stubbed to an empty string where messages are built with format!",
                         "hooks: cfg(nutype_verif) wrappers expose private to_*_derive_trait / validate_validators / validate_sanitizers",
                         "inputs holding syn types are never dropped (ManuallyDrop / mem::forget): their drop glue is not part of the property",
